@@ -66,6 +66,10 @@ fn arg(c: &mut Choices, risky: bool) -> String {
     if c.chance(1, 60) {
         return "y".repeat(3000 + c.below(9000));
     }
+    if c.chance(1, 90) {
+        // more than a pipe buffer (64 KiB) of command output when the shell echoes / prints it
+        return "z".repeat(66_000 + c.below(40_000));
+    }
     c.pick(ARGS).to_string()
 }
 
@@ -238,6 +242,9 @@ fn gen_case_with(c: &mut Choices, risky: bool) -> Case {
     }
     if c.chance(1, 4) {
         files.insert("sub/a.txt".to_string(), FileData::from_bytes(g(c)));
+    }
+    if c.chance(1, 12) {
+        files.insert("b.txt".to_string(), FileData::Text("0123456789abcdef\n".repeat(4200 + c.below(3000))));
     }
     // pre-existing generated files
     if c.chance(1, 3) {
